@@ -5,7 +5,7 @@
    each is closed by [exact <lemma>] and followed by Print Assumptions.  `rules`, `env`, the task arithmetic `F` and
    the dependency-order oracle `order` are universally quantified everywhere. *)
 From LLB Require Import Engine.Rules Engine.Spec Engine.Exec Engine.Cancel
-  Engine.CancelProofs Engine.CancelProofs2 Engine.CancelProofs3 Engine.CancelProofs4.
+  Engine.CancelProofs Engine.CancelProofs2 Engine.CancelProofs3 Engine.CancelProofs4 Engine.CancelProofs5.
 From Coq Require Import List NArith Bool Lia Arith.
 Local Open Scope N_scope.
 
@@ -120,3 +120,69 @@ Theorem c05_unflagged_runs_only_for_input : forall rules env F order fuel stack 
             In (ENeed k InputRebuilt (Some (d_key d))) l.
 Proof. exact unflagged_runs_only_for_input. Qed.
 Print Assumptions c05_unflagged_runs_only_for_input.
+
+(* ---------- the two refutations (replayable histories; task arithmetic mixF, identity order oracle, fuel 20) ---------- *)
+
+(* c05_same_engine_v0_refuted: WITHOUT the flag (`cancel_reset_v0`: the engine before the fix, where a rule in progress
+   keeps value and epochs and the dependency list re-recorded so far) there is a history
+   build; change an input; cancelled build; build   whose last build succeeds with a value different from the clean
+   one.  Witness (CancelProofs5.s1_prefix): rules 1 = {req [2;4]}, 2 and 4 observe; set 2 5; set 4 7; new engine (db);
+   build 1; set 4 8; build 1 cancelled after 14 events; build 1 -> (891684,0), clean (888378,0). *)
+Theorem c05_same_engine_v0_refuted :
+  exists (ops : list cop) (k : key) (n : nat) (v : value),
+    last_result (st_log (h_st (run_chistory mixF ord_id 20 (ops ++ [CBuildCancelV0 k n])))) = Some (None, true) /\
+    last_result (st_log (h_st (run_chistory mixF ord_id 20 (ops ++ [CBuildCancelV0 k n; CPlain (OBuild k)])))) = Some (Some v, false) /\
+    clean_value mixF 20 (run_chistory mixF ord_id 20 (ops ++ [CBuildCancelV0 k n; CPlain (OBuild k)])) k <> Some v.
+Proof. exact same_engine_v0_refuted_ex. Qed.
+Print Assumptions c05_same_engine_v0_refuted.
+
+(* the exact values of that witness, and the same history WITH the flag: repaired, key 1 re-runs with reason Forced *)
+Theorem c05_same_engine_v0_witness :
+  w_last (s1_prefix ++ [CPlain (OBuild 1)]) = Some (Some (888378, 0), false) /\
+  w_last (s1_prefix ++ [CBuildCancelV0 1 14]) = Some (None, true) /\
+  w_last s1_history_v0 = Some (Some (891684, 0), false) /\
+  w_clean s1_history_v0 1 = Some (888378, 0).
+Proof. exact same_engine_v0_refuted. Qed.
+Print Assumptions c05_same_engine_v0_witness.
+
+Theorem c05_same_engine_flagged_ok :
+  w_last (s1_prefix ++ [CBuildCancel 1 14]) = Some (None, true) /\
+  st_flag (h_st (w_run (s1_prefix ++ [CBuildCancel 1 14]))) = [1] /\
+  w_last s1_history = Some (Some (888378, 0), false) /\
+  w_clean s1_history 1 = Some (888378, 0) /\
+  In (ENeed 1 Forced None) (firstn 12 (st_log (h_st (w_run s1_history)))).
+Proof. exact same_engine_flagged_ok. Qed.
+Print Assumptions c05_same_engine_flagged_ok.
+
+(* c05_discovered_window_refuted (KNOWN finding `discovered-window`): even WITH the flag.  A task that completed in the
+   cancelled build (persisted, builtAt = that epoch) whose discovered dependency had not yet been brought up to date:
+   when that input returns to its earlier stamp, every later build keeps the stale value - on the same engine and on
+   a new engine over the same database.  Witness (CancelProofs5.s2_prefix): rules 1 = {req [2], disc [5]}, 2 and 5
+   observe; set 2 5; set 5 7; new engine (db); build 1; set 2 6; set 5 8; build 1 cancelled after 15 events (right after
+   `EComplete 1 (462296,0)`); set 5 7; build 1 -> (462296,0), clean (464033,0); same after a restart. *)
+Theorem c05_discovered_window_refuted :
+  exists (ops : list cop) (k d : key) (n : nat) (x : N) (v : value),
+    w_last (ops ++ [CBuildCancel k n]) = Some (None, true) /\
+    w_last (ops ++ [CBuildCancel k n; CPlain (OSet d x); CPlain (OBuild k)]) = Some (Some v, false) /\
+    w_clean (ops ++ [CBuildCancel k n; CPlain (OSet d x); CPlain (OBuild k)]) k <> Some v /\
+    w_last (ops ++ [CBuildCancel k n; CPlain (OSet d x); CPlain (ORestart true); CPlain (OBuild k)]) = Some (Some v, false) /\
+    w_clean (ops ++ [CBuildCancel k n; CPlain (OSet d x); CPlain (ORestart true); CPlain (OBuild k)]) k <> Some v.
+Proof. exact discovered_window_refuted_ex. Qed.
+Print Assumptions c05_discovered_window_refuted.
+
+Theorem c05_discovered_window_witness :
+  w_last (s2_prefix ++ [CBuildCancel 1 15]) = Some (None, true) /\
+  st_flag (h_st (w_run (s2_prefix ++ [CBuildCancel 1 15]))) = [] /\
+  w_last s2_same_engine = Some (Some (462296, 0), false) /\
+  w_clean s2_same_engine 1 = Some (464033, 0) /\
+  w_last s2_new_engine = Some (Some (462296, 0), false) /\
+  w_clean s2_new_engine 1 = Some (464033, 0).
+Proof. exact discovered_window_refuted. Qed.
+Print Assumptions c05_discovered_window_witness.
+
+(* the excluding hypothesis of the positive statement, `no_pending_discovered`, is exactly what fails in that witness *)
+Theorem c05_discovered_window_pending :
+  ensure_c s2_rules s2_env mixF ord_id 15 (length (st_log s2_before)) w_fuel [] (bump_epoch s2_before) 1 = Cycle s2_abort [] /\
+  ~ no_pending_discovered s2_rules s2_abort (length (st_log s2_before)).
+Proof. exact discovered_window_pending. Qed.
+Print Assumptions c05_discovered_window_pending.
